@@ -359,6 +359,31 @@ pub fn exec(out: &mut Out, line: &str) -> (String, bool) {
     let a: Vec<&str> = line.split(' ').collect();
     match a[1] {
         "pp" => exec_pp(out, line, &a),
+        "obj" => {
+            // a Coordinate OBJECT re-pointed: set_coordinate(t1) then set_coordinate(t2); all four fields must be those of t2
+            let t1 = String::from_utf8(unhex(a[2])).unwrap();
+            let t2 = String::from_utf8(unhex(a[3])).unwrap();
+            let r = guard(|| {
+                let mut c = umya_spreadsheet::structs::Coordinate::default();
+                c.set_coordinate(&t1);
+                c.set_coordinate(&t2);
+                (*c.get_col_num(), *c.get_row_num(), *c.get_is_lock_col(), *c.get_is_lock_row(), c.get_coordinate())
+            });
+            out.count(&format!("obj.locks.{}{}-then-{}{}", bit(t1.starts_with('$')), bit(t1[1..].contains('$')), bit(t2.starts_with('$')), bit(t2[1..].contains('$'))));
+            match r {
+                Ok((c, r, lc, lr, text)) => {
+                    if canon_cell(t1.as_bytes()) && canon_cell(t2.as_bytes()) {
+                        if text == t2 {
+                            out.oracle_ok();
+                        } else {
+                            out.oracle_fail(Fail::new("coordinate-object-keeps-old-fields").with("first", &t1).with("second", &t2).with("printed", &text).with("op", line));
+                        }
+                    }
+                    (format!("{} {} {} {} {}", c, r, bit(lc), bit(lr), hex(&text)), true)
+                }
+                Err(_) => ("panic".into(), false),
+            }
+        }
         "col2alpha" => {
             let n: u32 = a[2].parse().unwrap();
             let r = guard(|| string_from_column_index(&n));
@@ -565,6 +590,24 @@ pub fn gen(tier: Tier, seed: u64) -> Vec<String> {
     let mut rng = Rng::new(seed);
     let mut v: Vec<String> = vec![];
     let thorough = tier == Tier::Thorough;
+    // a Coordinate object pointed at one reference and then at another: every lock combination on both sides
+    {
+        let mut texts: Vec<String> = vec![];
+        for col in ["A", "Z", "AA", "XFD"] {
+            for row in ["1", "10", "1048576"] {
+                for (lc, lr) in [("", ""), ("$", ""), ("", "$"), ("$", "$")] {
+                    texts.push(format!("{}{}{}{}", lc, col, lr, row));
+                }
+            }
+        }
+        for (i, t1) in texts.iter().enumerate() {
+            for (j, t2) in texts.iter().enumerate() {
+                if thorough || (i * 7 + j) % 3 == 0 {
+                    v.push(format!("c17 obj {} {}", hex(t1), hex(t2)));
+                }
+            }
+        }
+    }
     // columns: exhaustive 1..=18278 plus boundary junk
     for n in 0..=18279u32 {
         v.push(format!("c17 col2alpha {}", n));
